@@ -2322,6 +2322,15 @@ class Interp:
                     res.store.f = MF(elemf)
                     return
 
+            # a concrete small range is simply expanded (its instances are facts about the state now)
+            if isinstance(lo, int) and isinstance(hi, int) and not isinstance(lo, bool) and hi - lo <= 32:
+                for t_ in range(lo, hi):
+                    e2 = dict(env)
+                    e2[var] = t_
+                    conds_ = [self.as_bool(self.eval(c, e2)) for c in ifs]
+                    body_ = self.tr(elt, e2, -1)
+                    ctx.assume(zor(znot(zand(*conds_)), body_) if conds_ else body_)
+                return
             # the fact is instantiated lazily (at VC time): freeze the evaluation context now
             saved_state = (interp.old_env, interp.sizes, interp.ghost_env, list(interp.frames))
             # arrays are mutable: the fact talks about the state *now*, so freeze a snapshot
